@@ -30,7 +30,7 @@ ASSUMPTIONS = ["STOCH bound checked when its input is a price field (an input ou
 
 def plan(tier):
     if tier == "thorough":
-        return {"shards": 16, "cases": 50000, "shard_timeout_s": 3000, "shard_budget_s": 1500}
+        return {"shards": 16, "cases": 200000, "shard_timeout_s": 3000, "shard_budget_s": 1500}
     return {"shards": 16, "cases": 10000, "shard_timeout_s": 600, "shard_budget_s": 100}
 
 
